@@ -63,7 +63,12 @@ the Go code and a concrete instance.
     list literals, element reads `l[i]` (negative indices, the fatal `IndexOutOfBounds`), element writes
     `l[i] = e` / `l[i] op= e`; lists are shared by reference: the heap relation is the identity (one heap,
     the `World` of both states), the value read by `Index` carries its origin and `Assign` writes through it.
-   (Proofs of 9–17: `Lemmas/SimH*.lean`; the simulation is combined in `SimHAll.allP`. From
+18. `compileObj_frag`, `compileMember_frag`, `compileMemAssign_frag`, `obj_spec`, `member_spec`, `member_vm`,
+    `memAssign_spec`, `field_write_read_shared`, `obj_correct`, `member_correct`, `memAssign_correct` —
+    object literals `new { k: e, … }` (the VM's template-then-assign construction against the specification's
+    evaluate-then-allocate), field reads `o.f`, field writes `o.f = e` / `o.f op= e`; objects are shared by
+    reference like lists.
+   (Proofs of 9–18: `Lemmas/SimH*.lean`; the simulation is combined in `SimHAll.allP`. From
    section 9 on, VM runs are `execHN` — instruction sequences including `Core.Run`'s exception
    dispatch — and the states `mkS s calls mp k stk mem w` carry a world `w` = heap and output.)
 -/
@@ -2936,5 +2941,319 @@ example : ∃ K, ∀ quantum, K ≤ quantum → ∀ vfuel, ∃ s',
     obtain ⟨s', hrun, hst⟩ := hK quantum hq vfuel
     exact ⟨s', hrun, by rw [hst]; exact hout⟩
 end Example17
+
+/-! ## 18. Objects: `new { k: e, … }`, `o.f`, `o.f = e`, `o.f op= e`
+
+Objects live on the shared heap like lists (`.ref a` on both sides, aliases see each other's writes).
+The VM allocates the object *before* its fields are initialized (a template with `null` fields, then one
+`Dup; Member k; code(e); Assign` per field) while the specification allocates afterwards; with pure
+initializers (atoms) and distinct field names both end with the same cell at the same address.
+`Member` pushes the field's value with its origin `Org.field a k`; `Assign` writes through it. -/
+
+/-- **What `compileExpr` emits for an object literal** with atoms as initializers and distinct field names:
+`Cloning_Push {k₁: null, …}`, then for every field `Dup; Member k; code(e); Assign` (`cgFields`). -/
+theorem compileObj_frag (fuel : Nat) (sp : Span) (ty : Ty) (fs : List (String × Expr)) (cs : CState)
+    (hs : Frag.okGE (.obj sp ty fs) = true) (hd : Frag.cdE (.obj sp ty fs) ≤ fuel)
+    (hws : Frag.wsGE cs.scopes (φOf cs) (.obj sp ty fs) = true) :
+    (compileExpr fuel (.obj sp ty fs)).run cs =
+      ((), updS cs cs.loops
+        ([(.cloningPush (.obj (fs.map fun f => (f.1, .null))), sp)] ++
+          (cgFields cs.currModule (ρS cs.scopes) sp fs cs.labelMangle).1)
+        { envOf cs with lm := (cgFields cs.currModule (ρS cs.scopes) sp fs cs.labelMangle).2 }) := by
+  have h := compileExpr_gfrag fuel _ cs hs hd hws
+  rwa [cgE] at h
+
+/-- **What `compileExpr` emits for `o.f`** (`Frag.okXE`): `code(o); Member f`. -/
+theorem compileMember_frag (fuel : Nat) (sp : Span) (ty : Ty) (b : Expr) (name : String) (cs : CState)
+    (hs : Frag.okXE (.member sp ty b name .dot) = true) (hd : Frag.cdE (.member sp ty b name .dot) ≤ fuel)
+    (hws : Frag.wsGE cs.scopes (φOf cs) (.member sp ty b name .dot) = true) :
+    let cb := cgE cs.currModule (ρS cs.scopes) (φOf cs) b cs.labelMangle
+    (compileExpr fuel (.member sp ty b name .dot)).run cs =
+      ((), updS cs cs.loops (cb.1 ++ [(.member name, sp)]) { envOf cs with lm := cb.2 }) := by
+  have h := compile_xexpr fuel _ cs hs hd cs.loops [] (envOf cs) hws
+  rw [updS_self, List.nil_append, cgE] at h
+  exact h
+
+/-- **What `compileStmt` emits for `o.f = e` and `o.f op= e`**:
+`code(o); Member f; code(e); Assign`, resp. `code(o); Member f; Dup; code(e); op; Assign`. -/
+theorem compileMemAssign_frag (fuel : Nat) (sp asp : Span) (op : Option InfixOp) (msp : Span) (mty : Ty) (b : Expr)
+    (name : String) (r : Expr) (cs : CState) (fr il rt : Bool)
+    (hrt : rt = true → cs.tryDepth = 0) (hil : il = true → ∃ b c rest, cs.loops = (b, c, cs.tryDepth) :: rest)
+    (hs : Frag.okFS fr il rt (.exprS sp (.assign asp op (.member msp mty b name .dot) r)) = true)
+    (hd : Frag.cdS (.exprS sp (.assign asp op (.member msp mty b name .dot) r)) ≤ fuel)
+    (hws : Frag.wsGS cs.currModule cs.currFn (φOf cs) (loopsOf cs.loops)
+      (.exprS sp (.assign asp op (.member msp mty b name .dot) r)) (envOf cs) = true) :
+    let cl := cgE cs.currModule (ρS cs.scopes) (φOf cs) (.member msp mty b name .dot) cs.labelMangle
+    let cr := cgE cs.currModule (ρS cs.scopes) (φOf cs) r cl.2
+    (compileStmt fuel (.exprS sp (.assign asp op (.member msp mty b name .dot) r))).run cs =
+      ((), updS cs cs.loops (cl.1 ++ opPre op asp ++ cr.1 ++ opPost op asp ++ [(.assign, asp)])
+        { envOf cs with lm := cr.2 }) := by
+  have h := (compile_gstmt fuel).1 _ cs cs.loops il rt hrt hil hs hd [] (envOf cs) hws
+  rw [updS_self, List.nil_append, cgS_memAssign] at h
+  exact h
+
+/-- **The specification's object literal**: the initializers in order, then a fresh cell. -/
+theorem obj_spec (cfg : Cfg) (fuel : Nat) (sp : Span) (ty : Ty) (fs : List (String × Expr)) (st : St) :
+    evalExpr cfg (fuel + 1) (.obj sp ty fs) st =
+      match evalFields cfg fuel fs st with
+      | (.ok vs, st1) => (.ok (.ref st1.heap.size), { st1 with heap := st1.heap.push (.obj vs) })
+      | (.error c, st1) => (.error c, st1) :=
+  evalExpr_obj cfg fuel sp ty fs st
+
+/-- **The specification's `o.f`** (`memberVal … .dot`): the data field of an object, else the bound member
+(a builtin method: `len`, `push`, …; `start`/`end` of a range). -/
+theorem member_spec (b : Val) (name : String) (sp : Span) (st : St) :
+    memberVal b name .dot sp st =
+      match b with
+      | .ref a =>
+        (match st.heap[a]? with
+          | some (.obj fs) => (match fs.lookup name with
+              | some v => (.ok v, st)
+              | none => (.ok (.bound b name), st))
+          | some _ => (.ok (.bound b name), st)
+          | none => (.error (.unsupported "dangling reference"), st))
+      | .range x y _ =>
+        (if name == "start" then (.ok (.int x), st) else if name == "end" then (.ok (.int y), st)
+          else (.ok (.bound b name), st))
+      | _ => (.ok (.bound b name), st) :=
+  memberVal_dot b name sp st
+
+/-- **`Member` on the VM** is the specification's `memberVal` on the VM's heap; a data field is pushed with
+its origin (`memOrg`: `Org.field a name`). -/
+theorem member_vm (code : Code) (lim : Limits) (s : VMState) (fn : String) (ip : Nat)
+    (rest : List Frame) (mp : Int) (k : Nat) (stk : List SVal) (mem : List (Int × Val)) (out : World)
+    (c : List (RInstr × Span)) (hf : findCode code fn = some c) (sp : Span) (name : String) (bv : Val) (ob : Option Org)
+    (hx : c[ip]? = some (.member name, sp)) :
+    exec1 code lim (mkS s (⟨fn, ip⟩ :: rest) mp k (⟨bv, ob⟩ :: stk) mem out) =
+      match (memberVal bv name .dot sp { s.st with heap := out.heap, out := out.out }).1 with
+      | .ok v => .next (mkS s (⟨fn, ip + 1⟩ :: rest) mp (k + 1) (⟨v, memOrg out.heap bv name⟩ :: stk) mem out)
+      | .error e => ctlToRes e (mkS s (⟨fn, ip⟩ :: rest) mp (k + 1) stk mem out) :=
+  mkS_member code lim s fn ip rest mp k stk mem out c hf sp name bv ob hx
+
+/-- **The specification's `o.f = e`, `o.f op= e`**: the slot first (`o` must be an object with a data field
+`f`), then the right-hand side, then the write. -/
+theorem memAssign_spec (cfg : Cfg) (fuel : Nat) (asp : Span) (op : Option InfixOp) (msp : Span) (mty : Ty)
+    (b : Expr) (name : String) (r : Expr) (st : St) :
+    evalExpr cfg (fuel + 2) (.assign asp op (.member msp mty b name .dot) r) st =
+      match evalExpr cfg fuel b st with
+      | (.ok bv, st1) =>
+        (match placeOfM bv name st1 with
+          | (.ok pl, st0) =>
+            (match (match op with
+                | none => evalExpr cfg (fuel + 1) r st0
+                | some o =>
+                  (match readPlace pl st0 with
+                   | (.ok cur, st0') =>
+                     (match evalExpr cfg (fuel + 1) r st0' with
+                      | (.ok b, st1) => binOp o cur b asp st1
+                      | (.error c, st1) => (.error c, st1))
+                   | (.error c, st0') => (.error c, st0'))) with
+             | (.ok v, st2) =>
+               (match writePlace pl v st2 with
+                | (.ok _, st3) => (.ok .null, st3)
+                | (.error c, st3) => (.error c, st3))
+             | (.error c, st2) => (.error c, st2))
+          | (.error c, st0) => (.error c, st0))
+      | (.error c, st1) => (.error c, st1) := by
+  rw [evalExpr_assign_gen, evalPlace_member]
+  rcases evalExpr cfg fuel b st with ⟨r1, st1⟩
+  cases r1 <;> rfl
+
+/-- **Sharing**: a write to field `k` of the object at address `a` — through whichever variable holds
+`.ref a` — is what every later read of that field sees. -/
+theorem field_write_read_shared (a : Nat) (k : String) (v old : Val) (sp : Span) (st : St) (pre post : List (String × Val))
+    (h : st.heap[a]? = some (.obj (pre ++ (k, old) :: post)))
+    (h1 : k ∉ pre.map (·.1)) (h2 : k ∉ post.map (·.1)) :
+    ∃ st', writePlace { addr := a, field := some k } v st = (.ok (), st') ∧
+      st' = { st with heap := st.heap.setIfInBounds a (.obj (pre ++ (k, v) :: post)) } ∧
+      memberVal (.ref a) k .dot sp st' = (.ok v, st') := by
+  have ha : a < st.heap.size := by
+    rcases Nat.lt_or_ge a st.heap.size with h' | h'
+    · exact h'
+    · rw [Array.getElem?_eq_none h'] at h; cases h
+  refine ⟨_, ?_, rfl, ?_⟩
+  · unfold writePlace
+    simp only [M_bind, readCell_run, h]
+    show (Except.ok (), _) = (Except.ok (), _)
+    rw [setField_eq, setField_append pre k old v post h1 h2]
+  · have hc : ({ st with heap := st.heap.setIfInBounds a (.obj (pre ++ (k, v) :: post)) } : St).heap[a]? =
+        some (.obj (pre ++ (k, v) :: post)) := by
+      simp [ha]
+    rw [memberVal_dot]
+    simp only [hc, lookup_append_not_mem pre k v post h1]
+
+/-- **Object literals are simulated**: with atoms as initializers and distinct field names, the VM's
+template-then-assign construction ends with the specification's cell at the specification's address. -/
+theorem obj_correct (G : GCtx) (hG : G.OK') (fuel : Nat) (A : Act) (hA : A.OK G) (sp : Span) (ty : Ty)
+    (fs : List (String × Expr)) (st : St) (ip : Nat) (stk : List SVal) (mem : Mem) (lm : LM)
+    (scopes : CScopes) (vm : List (String × Nat)) (e : Expr) (he : e = .obj sp ty fs)
+    (hs : Frag.okGE e = true) (hws : Frag.wsGE scopes A.φ e = true)
+    (hT : ∀ x ∈ Frag.namesGE e, x ∈ A.T)
+    (hpl : Placed A.lab A.σ A.c ip (cgE G.mod (ρS scopes) A.φ e lm).1)
+    (hrel : StRel G.mod A.T A.N A.σ G.lim A.mp scopes vm st.scopes mem) (hsp : SpecOK G A.mp st) :
+    Sim.SimGE G A ip (nI (cgE G.mod (ρS scopes) A.φ e lm).1) stk mem st (evalExpr G.cfg fuel e st) := by
+  subst he
+  exact (allP G hG fuel).pe A hA _ st ip stk mem lm scopes vm hs hws hT hpl hrel hsp
+
+/-- **Field reads are simulated** (`Sim.SimOE`; an instance of `index_correct`, which covers all of `Frag.okXE`). -/
+theorem member_correct (G : GCtx) (hG : G.OK') (fuel : Nat) (A : Act) (hA : A.OK G) (sp : Span) (ty : Ty)
+    (b : Expr) (name : String) (st : St) (ip : Nat) (stk : List SVal) (mem : Mem) (lm : LM)
+    (scopes : CScopes) (vm : List (String × Nat)) (e : Expr) (he : e = .member sp ty b name .dot)
+    (hs : Frag.okXE e = true) (hws : Frag.wsGE scopes A.φ e = true)
+    (hT : ∀ x ∈ Frag.namesGE e, x ∈ A.T)
+    (hpl : Placed A.lab A.σ A.c ip (cgE G.mod (ρS scopes) A.φ e lm).1)
+    (hrel : StRel G.mod A.T A.N A.σ G.lim A.mp scopes vm st.scopes mem) (hsp : SpecOK G A.mp st) :
+    Sim.SimOE G A ip (nI (cgE G.mod (ρS scopes) A.φ e lm).1) stk mem st (evalExpr G.cfg fuel e st) := by
+  subst he
+  exact index_correct G hG fuel A hA _ st ip stk mem lm scopes vm hs hws hT hpl hrel hsp
+
+/-- **`o.f = e` and `o.f op= e` are simulated** (`Sim.SimGS`), as `idxAssign_correct`. -/
+theorem memAssign_correct (G : GCtx) (hG : G.OK') (fuel : Nat) (A : Act) (hA : A.OK G)
+    (loops : List (String × String)) (lscopes : CScopes) (d : Nat) (sp asp : Span) (op : Option InfixOp)
+    (msp : Span) (mty : Ty) (b : Expr) (name : String) (r : Expr) (env : CEnv) (spec : St) (ip : Nat)
+    (stk : List SVal) (mem : Mem)
+    (stmt : Stmt) (hstmt : stmt = .exprS sp (.assign asp op (.member msp mty b name .dot) r))
+    (hs : Frag.okFS G.fr (!loops.isEmpty) A.rt stmt = true) (hT : ∀ x ∈ Frag.identsGS stmt, x ∈ A.T)
+    (hws : Frag.wsGS G.mod A.src A.φ loops stmt env = true)
+    (hN : ∀ m ∈ codeVars (cgS G.mod A.src A.φ loops stmt env).1, A.N m)
+    (hpl : Placed A.lab A.σ A.c ip (cgS G.mod A.src A.φ loops stmt env).1)
+    (hd : 1 ≤ d) (hls : lscopes = env.scopes.drop d)
+    (hrel : Sim.GRel G A env.scopes env.vm spec.scopes mem) (hsp : SpecOK G A.mp spec) :
+    Sim.SimGS G A loops lscopes d ip (nI (cgS G.mod A.src A.φ loops stmt env).1) stk mem
+      (Sim.GRel G A (cgS G.mod A.src A.φ loops stmt env).2.scopes (cgS G.mod A.src A.φ loops stmt env).2.vm) spec
+      (evalStmt G.cfg fuel stmt spec) := by
+  subst hstmt
+  exact (allP G hG fuel).pgs A hA loops lscopes d _ env spec ip stk mem hs hT hws hN hpl hd hls hrel hsp
+
+section Example18
+private def tyO : Ty := .obj [("x", .int), ("y", .int)]
+private def tyQ : Ty := .obj [("items", tyL), ("k", .int)]
+private def go (x : String) : Expr := .ident sp0 tyO x false false false
+private def gmem (o : Expr) (f : String) : Expr := .member sp0 .int o f .dot
+private def gsetf (op : Option InfixOp) (o : Expr) (f : String) (e : Expr) : Stmt :=
+  .exprS sp0 (.assign sp0 op (gmem o f) e)
+
+/-- `let o = new { x: n, y: 2 }; let p = o; p.x = 10; o.y += 5; let l = [1, 2];
+let q = new { items: l, k: 0 }; let it = q.items; it[0] = o.x + p.y; let s = l[0] + q.k;`:
+`p` is an alias of `o`, `it` and `q.items` are aliases of `l`. -/
+def mkStmts : List Stmt :=
+  [ .letS sp0 "o" tyO false tyO (.obj sp0 tyO [("x", gv "n"), ("y", .int sp0 2)]),
+    .letS sp0 "p" tyO false tyO (go "o"),
+    gsetf none (go "p") "x" (.int sp0 10),
+    gsetf (some .add) (go "o") "y" (.int sp0 5),
+    .letS sp0 "l" tyL false tyL (.list sp0 tyL [.int sp0 1, .int sp0 2]),
+    .letS sp0 "q" tyQ false tyQ (.obj sp0 tyQ [("items", gl "l"), ("k", .int sp0 0)]),
+    .letS sp0 "it" tyL false tyL (.member sp0 tyL (.ident sp0 tyQ "q" false false false) "items" .dot),
+    gset none "it" (.int sp0 0) (.infix sp0 .int .add (gmem (go "o") "x") (gmem (go "p") "y")),
+    .letS sp0 "s" .int false .int
+      (.infix sp0 .int .add (gidx "l" (.int sp0 0)) (gmem (.ident sp0 tyQ "q" false false false) "k")) ]
+/-- `fn mk(n: int) -> int { …; s }` -/
+def mkFd : FnDef := gfn "mk" ["n"] .int mkStmts (some (gv "s"))
+/-- `fn main() { println(mk(1)); }` -/
+def main6Stmts : List Stmt := [ gprint [gcall "mk" [.int sp0 1]] ]
+def main6Fd : FnDef := gfn "main" [] .null main6Stmts none
+def progO : Program :=
+  [{ name := "main", imports := [], singletons := [], globals := [], nImpls := 0, fns := [mkFd, main6Fd] }]
+
+/-- The whole program on the models themselves: the specification … -/
+example : (match runProgram { prog := progO } 200 with | .ok out _ => out | _ => "?") = "17\n" := by
+  decide +kernel
+/-- … and the VM, which ends with a clean core. -/
+example : (match compile progO "main" 100 with
+    | .ok c => (match runMain c {} 50 20000 with
+      | .ok s => (s.st.out, s.stack.length, s.mp, s.calls.length) | _ => ("?", 0, 0, 0))
+    | .error e => (e, 0, 0, 0)) = ("17\n", 0, 0, 0) := by
+  decide +kernel
+
+def φO : String → Option String := fun n => if n = "mk" then some "@main.mk" else none
+def symMk : SCode := cgFn "main" φO mkFd mkStmts (some (gv "s")) [[]] [] []
+def symMain6 : SCode := cgFn "main" φO main6Fd main6Stmts none [[]] [] []
+def codeO : Code := [⟨"@main.mk", renameVars (relG symMk)⟩, ⟨"@main.main", renameVars (relG symMain6)⟩]
+
+local instance (priority := high) : BEq PVal := ⟨pvalBeq⟩
+/-- Object templates are compared field by field. -/
+private def pvalBeqO : PVal → PVal → Bool
+  | .obj a, .obj b => a.length == b.length && (a.zip b).all fun xy => xy.1.1 == xy.2.1 && pvalBeq xy.1.2 xy.2.2
+  | a, b => pvalBeq a b
+private def instrBeqO : RInstr → RInstr → Bool
+  | .cloningPush a, .cloningPush b => pvalBeqO a b
+  | x, y => x == y
+private def codeBeqO (a b : List (RInstr × Span)) : Bool :=
+  a.length == b.length && (a.zip b).all fun xy => instrBeqO xy.1.1 xy.2.1 && xy.1.2 == xy.2.2
+/-- The real compiler produces `codeO` (kernel evaluation, instruction by instruction). -/
+example : (match compile progO "main" 100 with
+    | .ok c => (((c.fns.filter fun f => f.name != "@main.@init").zip codeO).all fun fg =>
+        fg.1.name == fg.2.name && codeBeqO fg.1.code fg.2.code) &&
+        (c.fns.filter fun f => f.name != "@main.@init").length == codeO.length
+    | .error _ => false) = true := by decide +kernel
+
+def GO : GCtx := ⟨{ prog := progO }, codeO, {}, "main", {}, fun g => g = "mk", 16, 0, false⟩
+
+private theorem phiO : PhiOK GO φO := by
+  intro name f h
+  unfold φO at h
+  split at h
+  · rename_i hn; subst hn; cases h
+    exact ⟨by decide +kernel, rfl, mkFd, rfl, rfl⟩
+  · cases h
+
+theorem fnOK_mk : FnOK GO "mk" mkFd
+    ⟨renameVars (relG symMk), slotFn (relG symMk), labelIndex symMk, (· ∈ varNames (relG symMk)),
+      ["n", "o", "p", "l", "q", "it", "s"], φO, [[]], [], []⟩ mkStmts (gv "s") :=
+  fn_compiled_okF GO mkFd mkStmts (gv "s") φO [[]] [] [] ["n", "o", "p", "l", "q", "it", "s"] (relG symMk)
+    ⟨sp0, .int, rfl⟩
+    (by decide) (relocate_relG _ (by decide +kernel))
+    (by
+      have h : mangleFnName GO.mod mkFd.name = "@main.mk" := by decide +kernel
+      rw [h]; simp [findCode, codeO, GO])
+    (by decide +kernel) (by decide +kernel) (by decide +kernel) (by decide +kernel)
+    (by decide +kernel) (by decide +kernel) (by decide +kernel) (by decide +kernel) (by decide +kernel)
+    (by decide +kernel) phiO
+
+theorem go_ok : GO.OK' := by
+  refine ⟨?_, by decide, by decide, rfl, rfl, rfl⟩
+  intro g fd hK hfind
+  cases hK
+  have h : findFn GO.cfg.prog GO.mod "mk" = some mkFd := rfl
+  rw [h] at hfind; cases hfind
+  exact ⟨_, _, _, fnOK_mk, fun h => by cases h⟩
+
+theorem fnOK_main6 : FnVoidOK GO "main" main6Fd
+    ⟨renameVars (relG symMain6), slotFn (relG symMain6), labelIndex symMain6, (· ∈ varNames (relG symMain6)),
+      ["println", "mk"], φO, [[]], [], []⟩ main6Stmts :=
+  fn_void_compiled_okF GO main6Fd main6Stmts φO [[]] [] [] ["println", "mk"] (relG symMain6)
+    ⟨sp0, .null, rfl⟩ (by decide) (relocate_relG _ (by decide +kernel))
+    (by
+      have h : mangleFnName GO.mod main6Fd.name = "@main.main" := by decide +kernel
+      rw [h]; simp [findCode, codeO, GO])
+    (by decide +kernel) (by decide +kernel) (by decide +kernel) (by decide +kernel)
+    (by decide +kernel) (by decide +kernel) (by decide +kernel) phiO
+
+private theorem spec_main6 :
+    okOut "17\n" (callBody GO.cfg 200 sp0 GO.mod main6Fd.params main6Fd.body [] stX) = true := by
+  decide +kernel
+
+/-- **The program through the theorems**: `mk(1)` builds an object, writes to it through the alias `p` and
+through `o`, stores a list in a second object, takes the list out of the field again and writes to it, and
+reads through all the names: `17`, the specification's output. -/
+example : ∃ K, ∀ quantum, K ≤ quantum → ∀ vfuel, ∃ s',
+    run codeO {} quantum none (vfuel + 1) { calls := [⟨"@main.main", 0⟩] } = .ok s' ∧
+    s'.st.out = "17\n" ∧ s'.mp = 0 ∧ s'.calls = [] := by
+  obtain ⟨fuel, hfuel⟩ : ∃ n : Nat, n = 200 := ⟨200, rfl⟩
+  have h := entry_runF GO go_ok fuel "main" main6Fd _ main6Stmts fnOK_main6 (fun h => by cases h) sp0 stX 0 []
+    ⟨[], ⟨[], 0⟩⟩ ⟨trivial, rfl, rfl, by decide⟩ (by decide) (by decide) (by decide)
+  subst hfuel
+  have hs := spec_main6
+  rcases hev : callBody GO.cfg 200 sp0 GO.mod main6Fd.params main6Fd.body [] stX with ⟨res, st'⟩
+  rw [hev] at h hs
+  cases res with
+  | error e => simp [okOut] at hs
+  | ok v =>
+    simp only [okOut, beq_iff_eq] at hs
+    obtain ⟨K, hK⟩ := h
+    refine ⟨K, fun quantum hq vfuel => ?_⟩
+    obtain ⟨s', hrun, hst, hmp, hcalls, hstk⟩ := hK quantum hq vfuel
+    exact ⟨s', hrun, by rw [hst]; exact hs, hmp, hcalls⟩
+end Example18
 
 end HmsProofs.C01VM
